@@ -1,32 +1,61 @@
 """C03: any handler outcome yields one well-formed reply; the session survives.
 
-A real serving RPCSession on the fake transport and the virtual loop; handlers are scripted per
-request (they wait on a gate, then behave as the chosen outcome); requests, notifications and
-batch members are in flight concurrently and complete in a chosen order.  Observed: the decoded
-replies per id, session.errors, the error part of session.cost, whether the connection was
-closed, and a probe request at the end (still serving?).  Compared with the Lean decision model
-(`drv_c03`) and judged by the oracle written from the property text.
+A real serving RPCSession on the fake transport and the virtual loop.  A case is a session
+configuration plus a list of requests / notifications / batch members that all arrive at
+virtual time 0, each with a scripted handler: it runs for `dur` virtual seconds and then behaves
+as its outcome.  The completion order therefore follows from the durations, the concurrency
+limit (requests beyond `conc` wait for a slot) and the cost throttle (every handler starts
+`throttle` seconds late); whatever has not finished when the processing timeout (P = 30 s after
+arrival) expires overruns - in its handler, in the throttle sleep or still queued for a slot.
+
+Observed (public observables only): the decoded replies per id on the wire, session.errors and
+session.cost after every instant at which something happened, whether the connection was closed,
+the disconnect hook, a probe request at the end (still serving?), and the times at which the
+scripted handlers themselves started / reached their outcome.
+
+Judged by the oracle written from the property text, and compared with the Lean model
+(`drv_c03`: K-slot schedule + decision ladder + completion fold).
 """
+import asyncio
 import itertools
-import logging
 import json
+import logging
 import os
 from multiprocessing import Pool
 
 from harness.base import Results, corpus_lines
 from harness.rig import Rig
 
-RULE = ('case = (items, completion order): items are requests / notifications / members of one '
-        'batch, each with a handler outcome from {value, unencodable value, RPCError(code,msg,'
-        'cost), ProtocolError, other exception, overrun of processing_timeout, ReplyAndDisconnect'
-        '(value|error|unencodable), limiter refusal}; all in flight together, completed in the '
-        'given order; then a probe request. exhaustive: every outcome x {request, notification, '
-        'batch member} alone and every ordered pair of outcomes; seeded random vectors of up to '
-        '6 items with random completion orders. non-trivial = at least 2 items of which at '
-        'least one fails; distinct = distinct (items, order)')
+RULE = ('case = (session configuration: protocol 2.0/1.0/loose, server/client kind, cost hard '
+        'limit 0 or not, concurrency limit K, throttle sleep S, slow peer (send buffer drains '
+        'late / writing paused around the processing deadline)) x (items: requests / '
+        'notifications / members of one batch, each with a handler duration and an outcome from '
+        '{value, unencodable value (3 ways), returned RPCError object, RPCError(code,msg,cost), '
+        'ProtocolError, other exception (5 classes), overrun of processing_timeout (in the '
+        'handler / in the throttle sleep / queued for a slot), ReplyAndDisconnect(value|error|'
+        'unencodable) at any position of the completion order, limiter refusal, and - outside '
+        'the property quantifier, model comparison only - ReplyAndDisconnect(), handler raising '
+        'ExcessiveSessionCostError / TaskTimeout / CancelledError / TimeoutCancellationError}); '
+        'all arrive at time 0, then a probe request. exhaustive: every outcome x {request, '
+        'notification, batch member} alone under every configuration, every ordered pair of '
+        'outcome classes in both completion orders, queueing / throttle / paused-writer '
+        'families; seeded random vectors of up to 6 items. non-trivial = at least 2 items of '
+        'which at least one fails; distinct = distinct cases')
 
+P = 30                       # processing_timeout of the scripted sessions (virtual seconds)
+SOFT, HARD = 2 ** 30, 2 ** 31            # cost limits no case reaches by itself
+BIG = 3 * 2 ** 30            # cost bump that drives the limiter's target to 0 (outcome 'x')
+T_SOFT, T_RANGE = 1024, 2 ** 30          # throttle configuration: sleep = cost - T_SOFT seconds
 MSG = {1: 'alpha', 2: 'beta', 3: 'gamma é', 7: 'seven', 9: ''}
-OUTCOMES = ['v', 'u', 'r', 'p', 'o', 't', 'dv', 'de', 'du', 'x']
+MSG_IDS = {v: k for k, v in MSG.items()}
+# results that are falsy in Python: value ids 900.. (a reply must not depend on truthiness)
+FALSY = [None, 0, '', [], False, {}, 0.0]
+
+# outcome classes (first element of an outcome tuple)
+DISC = ('dv', 'de', 'du')                # ReplyAndDisconnect(value | error | unencodable)
+OUTSIDE = ('d0', 'tt', 'b', 'x')         # not a handler outcome the property quantifies over
+OUTCOMES = ['v', 'u', 'e', 'r', 'p', 'o', 't', 'dv', 'de', 'du', 'x', 'xe', 'd0', 'tt', 'b']
+N_OTHER = 5                              # size of the "other exception" family
 
 
 def unencodable(n):
@@ -48,132 +77,272 @@ def unencodable(n):
     return deep
 
 
-def make_session_cls(mods):
-    sess, jr = mods['session'], mods['jsonrpc']
+DEFAULT_CFG = {'proto': '2.0', 'kind': 'server', 'hard0': False, 'conc': 20, 'throttle': 0,
+               'drain': None, 'pause': None, 'transport': 'rs'}
+
+
+def norm_cfg(cfg):
+    out = dict(DEFAULT_CFG)
+    out.update(cfg or {})
+    return out
+
+
+def norm_case(case):
+    """accepts the old corpus format {'items': [[kind, outcome]], 'order': [...]} (completion
+    order given explicitly) and the current one {'cfg': {...}, 'items': [[kind, outcome, dur]]}"""
+    if isinstance(case.get('case'), dict):
+        case = case['case']
+    items = []
+    if 'order' in case:
+        pos = {idx: p for p, idx in enumerate(case['order'])}
+        for i, (k, o) in enumerate(case['items']):
+            o = tuple(o)
+            if o == ('o',):
+                o = ('o', 0)
+            items.append((k, o, 0 if o[0] == 'x' else 1 + pos.get(i, i)))
+    else:
+        items = [(k, tuple(o), d) for k, o, d in case['items']]
+    arr = list(case.get('arr') or [0] * len(items))
+    return {'cfg': norm_cfg(case.get('cfg')), 'items': items, 'arr': arr}
+
+
+def case_json(case):
+    cfg = {k: v for k, v in case['cfg'].items() if DEFAULT_CFG.get(k) != v}
+    out = {'cfg': cfg, 'items': [[k, list(o), d] for k, o, d in case['items']]}
+    if any(case['arr']):
+        out['arr'] = list(case['arr'])
+    return out
+
+
+def make_session_cls(mods, cfg):
+    sess, jr, cu = mods['session'], mods['jsonrpc'], mods['curio']
+    proto_cls = {'2.0': jr.JSONRPCv2, '1.0': jr.JSONRPCv1, 'loose': jr.JSONRPCLoose}[cfg['proto']]
+
+    class BadStr(Exception):
+        def __str__(self):
+            raise RuntimeError('str() of this exception fails')
+        __repr__ = __str__
 
     class S(sess.RPCSession):
-        processing_timeout = 30.0
+        processing_timeout = float(P)
         cost_decay_per_sec = 0.0
-        cost_soft_limit = 10 ** 9
-        cost_hard_limit = 2 * 10 ** 9
+        initial_concurrent = cfg['conc']
+        if cfg['throttle']:
+            cost_soft_limit = T_SOFT
+            cost_hard_limit = T_SOFT + T_RANGE
+            cost_sleep = float(T_RANGE)
+        else:
+            cost_soft_limit = SOFT
+            cost_hard_limit = 0 if cfg['hard0'] else HARD
 
         def __init__(self, *a, **k):
             super().__init__(*a, **k)
             self.script = {}
-            self.gates = {}
+            self.hlog = {}            # method -> [start time, time the outcome was reached]
             self.hook_calls = 0
-            self.started = []
+
+        def default_connection(self):
+            return jr.JSONRPCConnection(proto_cls)
 
         def on_disconnect_due_to_excessive_session_cost(self):
             self.hook_calls += 1
 
         async def handle_request(self, request):
             key = request.method
-            self.started.append(key)
-            o = self.script[key]
-            await self.gates[key]
+            o, dur = self.script[key]
+            now = asyncio.get_event_loop().time
+            rec = self.hlog[key] = [now(), None]
+            if dur:
+                await cu.sleep(dur)
             kind = o[0]
+            if kind == 't':
+                await cu.sleep(P + 10 ** 6)
+                return 'late'
+            rec[1] = now()
             if kind == 'v':
-                return {'ok': o[1]}
+                return {'ok': o[1]} if o[1] < 900 else FALSY[o[1] - 900]
             if kind == 'u':
                 return unencodable(o[1])
+            if kind == 'e':
+                return jr.RPCError(o[1], MSG[o[2]], cost=float(o[3]))
             if kind == 'r':
                 raise jr.RPCError(o[1], MSG[o[2]], cost=float(o[3]))
             if kind == 'p':
                 raise jr.ProtocolError(o[1], MSG[o[2]])
             if kind == 'o':
-                raise ValueError('boom')
-            if kind == 't':
-                await mods['curio'].sleep(self.processing_timeout + 1000)
-                return 'late'
+                n = o[1] % N_OTHER
+                if n == 0:
+                    raise ValueError('boom')
+                if n == 1:
+                    raise asyncio.TimeoutError()
+                if n == 2:
+                    raise KeyError('missing')
+                if n == 3:
+                    raise BadStr()
+                # the handler's own, inner timeout expires and is not caught
+                async with cu.timeout_after(0.0):
+                    await cu.sleep(1)
+                raise AssertionError('inner timeout did not fire')
             if kind == 'dv':
                 raise sess.ReplyAndDisconnect({'ok': o[1]})
             if kind == 'du':
                 raise sess.ReplyAndDisconnect(unencodable(o[1]))
             if kind == 'de':
                 raise sess.ReplyAndDisconnect(jr.RPCError(o[1], MSG[o[2]], cost=float(o[3])))
+            if kind == 'd0':
+                raise sess.ReplyAndDisconnect()
+            if kind == 'xe':
+                raise sess.ExcessiveSessionCostError()
+            if kind == 'tt':
+                raise cu.TaskTimeout(1.0)
+            if kind == 'b':
+                if o[1] % 2 == 0:
+                    raise asyncio.CancelledError()
+                raise cu.TimeoutCancellationError(1.0)
             raise AssertionError(o)
     return S
 
 
-def run_case(repo, items, order, transport="rs"):
+def wire_request(proto, method, req_id):
+    """the peer's request / notification (req_id None) in the session's protocol version"""
+    if proto == '2.0':
+        msg = {'jsonrpc': '2.0', 'method': method, 'params': []}
+        if req_id is not None:
+            msg['id'] = req_id
+    elif proto == '1.0':
+        msg = {'method': method, 'params': [], 'id': req_id}
+    else:
+        msg = {'method': method, 'params': []}
+        if req_id is not None:
+            msg['id'] = req_id
+    return msg
+
+
+def arrival_order(items):
+    """singles in list order; the batch (all 'B'/'M' items) arrives as one message at the
+    position of its first member"""
+    out, done = [], False
+    for i, (k, _o, _d) in enumerate(items):
+        if k in ('B', 'M'):
+            if not done:
+                out += [j for j, it in enumerate(items) if it[0] in ('B', 'M')]
+                done = True
+        else:
+            out.append(i)
+    return out
+
+
+def run_case(repo, case):
     logging.disable(logging.CRITICAL)
-    # a slow peer (the reply sits in the send buffer for 5 virtual seconds) whenever the case
-    # ends with a reply-and-disconnect: the reply must still get through before the close
-    slow_peer = bool(order) and items[order[-1]][1][0] in ('dv', 'de') and \
-        not any(o[0] == 't' for _k, o in items)
-    """items: list of (kind 'R'|'N'|'B', outcome tuple); 'B' items form one batch.
-    order: permutation of range(len(items)) = completion order."""
-    rig = Rig(repo, make_session_cls, transport=transport)
+    cfg, items = case['cfg'], case['items']
+    proto = cfg['proto']
+    rig = Rig(repo, lambda mods: make_session_cls(mods, cfg), transport=cfg['transport'],
+              kind=cfg['kind'])
     try:
-        s = rig.session
-        if slow_peer:
-            rig.tr.drain_delay = 5.0
-        obs = {'exc': None}
+        s, tr = rig.session, rig.tr
+        if cfg['drain']:
+            tr.drain_delay = cfg['drain']
         loopexc = []
         rig.loop.set_exception_handler(lambda loop, ctx: loopexc.append(
             type(ctx.get('exception')).__name__ if ctx.get('exception') else ctx.get('message')))
+        if cfg['throttle']:
+            s.bump_cost(T_SOFT + cfg['throttle'])
         names = [f'm{i}' for i in range(len(items))]
-        for n, (k, o) in zip(names, items):
-            s.script[n] = o
-            s.gates[n] = rig.loop.create_future()
+        for n, (k, o, d) in zip(names, items):
+            s.script[n] = (o, d)
+        bw = lambda: (s.recv_size + s.send_size) * s.bw_cost_per_byte
         cost0, err0 = s.cost, s.errors
-        # feed: singles first to last, batch members as one batch message
-        batch = []
-        for i, (n, (k, o)) in enumerate(zip(names, items)):
-            msg = {'jsonrpc': '2.0', 'method': n, 'params': []}
-            if k != 'N':
-                msg['id'] = i
-            if o[0] == 'x':
-                # the limiter refuses entry: target 0 while this request is admitted
-                s._incoming_concurrency.set_target(0)
-            if k == 'B':
-                batch.append(msg)
-            else:
-                rig.feed_json(msg)
-            if o[0] == 'x' and k != 'B':
-                s._incoming_concurrency.set_target(20)
-        if batch:
-            rig.feed(json.dumps(batch).encode() + b'\n')
-            s._incoming_concurrency.set_target(20)
-        bw0 = s.cost            # cost after the traffic was charged (errors of 'x' included)
-        for idx in order:
-            n = names[idx]
-            g = s.gates[n]
-            if not g.done():
-                g.set_result(None)
-            rig.idle()
-            if items[idx][1][0] == 't':
-                rig.advance(s.processing_timeout + 5)
-        rig.idle()
-        if slow_peer:
-            rig.advance(12)
-        closed_before_probe = rig.tr.is_closing()
-        replies = {}
-        dup = []
-        for msg in rig.written_lines():
-            members = msg if isinstance(msg, list) else [msg]
-            for m in members:
-                if not isinstance(m, dict) or 'id' not in m:
-                    replies.setdefault('malformed', []).append(m)
+        snaps = []
+
+        def snap():
+            rec = (rig.now, s.errors - err0, s.cost - cost0 - bw(), tr.is_closing(), s.hook_calls)
+            if not snaps or snaps[-1][1:] != rec[1:]:
+                snaps.append(rec)
+        # ---- arrivals (at their instants; usually all at 0), pause / resume of the peer's reading
+        arr = case['arr']
+        marks = []
+
+        def feeder(i):
+            k, o, d = items[i]
+
+            def feed_batch():
+                batch = [wire_request(proto, names[j], j if items[j][0] == 'B' else None)
+                         for j in range(len(items)) if items[j][0] in ('B', 'M')]
+                rig.feed(json.dumps(batch).encode() + b'\n')
+
+            def feed_single():
+                if o[0] == 'x':
+                    # the limiter refuses entry: the session's cost is past its hard limit
+                    # while this request arrives
+                    s.bump_cost(BIG)
+                    rig.feed_json(wire_request(proto, names[i], None if k == 'N' else i))
+                    s.bump_cost(-BIG)
+                else:
+                    rig.feed_json(wire_request(proto, names[i], None if k == 'N' else i))
+            return feed_batch if k in ('B', 'M') else feed_single
+        fed_batch = False
+        for i, (k, o, d) in enumerate(items):
+            if k in ('B', 'M'):
+                if fed_batch:
                     continue
-                if m['id'] in replies:
+                fed_batch = True
+            marks.append((arr[i], feeder(i)))
+        horizon = max(arr, default=0) + P + 8 + (cfg['drain'] or 0)
+        if cfg['pause']:
+            marks += [(cfg['pause'][0], tr.env_pause), (cfg['pause'][1], tr.env_resume)]
+            horizon = max(horizon, cfg['pause'][1] + 8)
+        marks.sort(key=lambda m: m[0])
+
+        def run_marks():
+            while marks and marks[0][0] <= rig.now + 1e-9:
+                marks.pop(0)[1]()
+                rig.idle()
+        run_marks()
+        snap()
+        # ---- let virtual time pass, instant by instant
+        for _ in range(10000):
+            nt = rig.next_timer()
+            cand = [t for t in ([nt] if nt is not None else []) + [m[0] for m in marks[:1]]
+                    if t <= horizon]
+            if not cand:
+                break
+            rig.advance_to(max(min(cand), rig.now))
+            run_marks()
+            snap()
+        rig.advance_to(max(horizon, rig.now))
+        snap()
+        closed = tr.is_closing()
+        singles, batches, dup, malformed = {}, [], [], []
+        for msg in rig.written_lines():
+            if isinstance(msg, list):
+                batches.append(msg)
+                members = msg
+            else:
+                members = [msg]
+            for m in members:
+                if not isinstance(m, dict) or 'id' not in m or isinstance(m['id'], (list, dict)):
+                    malformed.append(m)
+                    continue
+                if m['id'] in singles:
                     dup.append(m['id'])
-                replies[m['id']] = m
-        # probe: is the session still serving?
+                singles[m['id']] = m
+        # ---- probe: is the session still serving?
         probe = None
-        if not closed_before_probe:
-            s.script['probe'] = ('v', 4242)
-            s.gates['probe'] = rig.loop.create_future()
-            s.gates['probe'].set_result(None)
-            mark = len(rig.tr.out)
-            rig.feed_json({'jsonrpc': '2.0', 'method': 'probe', 'params': [], 'id': 777777})
+        if not closed:
+            if cfg['throttle']:
+                s.bump_cost(-s.cost)        # leave the throttled range again
+            s.script['probe'] = (('v', 424), 0)
+            mark = len(tr.out)
+            rig.feed_json(wire_request(proto, 'probe', 777777))
+            rig.advance(1 + (cfg['drain'] or 0))
             got = [m for m in rig.written_lines(mark) if isinstance(m, dict) and m.get('id') == 777777]
-            probe = bool(got) and got[0].get('result') == {'ok': 4242}
-        obs.update(replies=replies, dup=dup, errors=s.errors - err0, cost=s.cost - cost0,
-                   closed=closed_before_probe, probe=probe, hook=s.hook_calls, loopexc=loopexc,
-                   pm_task_done=rig.proto._process_messages_task.done())
-        return obs
+            probe = bool(got) and got[0].get('result') == {'ok': 424}
+        pm = getattr(rig.proto, '_process_messages_task', None)
+        return {'replies': singles, 'batches': batches, 'dup': dup, 'malformed': malformed,
+                'snaps': snaps, 'closed': closed, 'probe': probe, 'hook': s.hook_calls,
+                'hlog': {int(k[1:]): v for k, v in s.hlog.items() if k != 'probe'},
+                'loopexc': loopexc, 'pm_task_done': pm.done() if pm is not None else None,
+                'discarded': len(tr.discarded)}
     finally:
         rig.close()
 
@@ -181,48 +350,53 @@ def run_case(repo, items, order, transport="rs"):
 # ---------------------------------------------------------------- model line + expectations
 def ser_outcome(o):
     k = o[0]
-    if k in ('v', 'u', 'dv', 'du'):
+    if k in ('v', 'u', 'dv', 'du', 'o', 'b'):
         return f'{k}{o[1]}'
-    if k in ('r', 'de'):
+    if k in ('r', 'de', 'e'):
         return f'{k}{o[1]}:{o[2]}:{o[3]}'
     if k == 'p':
         return f'p{o[1]}:{o[2]}'
     return k
 
 
-def model_line(cfg, items, order):
-    its = []
-    for idx in order:
-        k, o = items[idx]
-        its.append(f'{"N" if k == "N" else "R"} {idx} {ser_outcome(o)}')
-    return f'repaired {cfg["internal"]} {cfg["busy"]} {cfg["excessive"]} {cfg["base"]} ; ' + ' ; '.join(its)
+def model_line(cfg, case):
+    c, items = case['cfg'], case['items']
+    its = [f'{items[i][0]} {i} {ser_outcome(items[i][1])} {items[i][2]} {case["arr"][i]}'
+           for i in arrival_order(items)]
+    return (f'repaired {cfg["internal"]} {cfg["busy"]} {cfg["excessive"]} {cfg["base"]} ; '
+            f'{c["conc"]} {P} {c["throttle"]} ; ' + ' ; '.join(its))
 
 
 def parse_model(line):
     f = dict(tok.split('=', 1) for tok in line.split(' '))
-    reps = {}
-    for r in f['replies'].split(','):
-        if not r:
-            continue
-        i, rest = r.split(':', 1)
-        reps[int(i)] = rest
+
+    def reps(s):
+        out = {}
+        for r in s.split(','):
+            if r:
+                i, rest = r.split(':', 1)
+                out[int(i)] = rest
+        return out
     return {'alive': f['alive'] == '1', 'close': f['close'] == '1', 'errors': int(f['errors']),
-            'cost': int(f['cost']), 'replies': reps,
-            'lost': [int(x) for x in f['lost'].split(',') if x]}
-
-
-MSG_IDS = {v: k for k, v in MSG.items()}
+            'cost': int(f['cost']), 'hook': int(f['hook']), 'replies': reps(f['replies']),
+            'batch': None if f['batch'] == 'none' else reps(f['batch']),
+            'lost': [int(x) for x in f['lost'].split(',') if x],
+            'cut': None if f['cut'] == 'none' else int(f['cut']),
+            'times': {int(a): int(b) for a, b in (x.split('@') for x in f['times'].split(',') if x)}}
 
 
 def canon_reply(m):
     """implementation reply -> the model's notation (message texts of the library's own errors
     are not compared: only their codes)"""
-    if 'result' in m and m.get('error') is None:
+    e = m.get('error')
+    if e is None and 'result' in m:
         r = m['result']
         if isinstance(r, dict) and set(r) == {'ok'}:
             return f'R{r["ok"]}'
+        for n, val in enumerate(FALSY):
+            if type(r) is type(val) and r == val:
+                return f'R{900 + n}'
         return f'R?{r!r}'
-    e = m.get('error')
     if isinstance(e, dict):
         return f'E{e.get("code")}:{MSG_IDS.get(e.get("message"), "lib")}'
     return f'?{m!r}'
@@ -235,130 +409,386 @@ def canon_model_reply(s):
     return s
 
 
-def oracle(cfg, items, order, obs):
-    """the property, clause by clause, on the implementation's observations"""
+def well_formed(proto, m):
+    """an independent reading of the response formats (JSON-RPC 2.0 section 5 / 1.0 section 1.2)"""
+    if not isinstance(m, dict) or 'id' not in m:
+        return False
+    e = m.get('error')
+    err_ok = isinstance(e, dict) and type(e.get('code')) is int and isinstance(e.get('message'), str)
+    if proto == '1.0':
+        if set(m) != {'result', 'error', 'id'}:
+            return False
+        return m['error'] is None or (m['result'] is None and err_ok)
+    if m.get('jsonrpc') != '2.0' or not set(m) <= {'jsonrpc', 'result', 'error', 'id'}:
+        return False
+    if ('result' in m) == ('error' in m):
+        return False
+    return 'result' in m or err_ok
+
+
+def text_replies(cfg, o, overran):
+    """what the property text allows as the reply to a request whose handler did `o`"""
+    if overran:
+        return {f'E{cfg["busy"]}:lib'}
+    k = o[0]
+    if k in ('v', 'dv'):
+        return {f'R{o[1]}'}
+    if k in ('r', 'p', 'de'):
+        return {f'E{o[1]}:{o[2]}'}
+    if k in ('u', 'du', 'o', 'xe'):
+        return {f'E{cfg["internal"]}:lib'}
+    if k == 'e':
+        # a returned RPCError object is not among the behaviours the text lists: the library
+        # answers with that error; reading it as "a value that cannot be encoded" is allowed too
+        return {f'E{o[1]}:{o[2]}', f'E{cfg["internal"]}:lib'}
+    return None
+
+
+def oracle(cfg, case, obs):
+    """the property, clause by clause, on the implementation's observations (the times are
+    those the scripted handlers recorded themselves)"""
     bad = []
-    disconnecting = [i for i in order if items[i][1][0] in ('dv', 'de', 'du', 'x')]
-    first_disc = order.index(disconnecting[0]) if disconnecting else None
+    c, items = case['cfg'], case['items']
+    proto = c['proto']
+    fin = {}                # item -> time its handler reached its outcome (None: never did)
+    for i, (k, o, d) in enumerate(items):
+        rec = obs['hlog'].get(i)
+        fin[i] = rec[1] if rec else None
+        if o[0] == 'x':
+            fin[i] = float(case['arr'][i])    # refused on arrival
+    # the first instant at which an item completed after which the text promises nothing more:
+    # a reply-and-disconnect, or a behaviour outside the property's quantifier
+    cuts = [(fin[i], i) for i, (k, o, d) in enumerate(items)
+            if fin[i] is not None and (o[0] in DISC or o[0] in OUTSIDE or o[0] == 'xe')]
+    cut_t, cutter = min(cuts) if cuts else (None, None)
+    # replies held back by a paused writer (the peer is not reading) when something cuts the
+    # connection are not promised: the close overtakes them
+    hold_t = None
+    if c['pause'] and any(c['pause'][0] <= t <= c['pause'][1] for t, _i in cuts):
+        hold_t = float(c['pause'][0])
+
+    def live(i):
+        """the text speaks about item i: it completed (or overran) before anything cut"""
+        t = fin[i] if fin[i] is not None else float(case['arr'][i] + P)
+        if hold_t is not None and t >= hold_t:
+            return False
+        if cut_t is None or i == cutter:
+            return True
+        return t < cut_t
+    batch_members = [i for i, it in enumerate(items) if it[0] == 'B']
+    # the batch response is due when every member is one the text speaks about
+    batch_live = all(live(i) and it[1][0] not in OUTSIDE
+                     for i, it in enumerate(items) if it[0] in ('B', 'M'))
     failed = 0
-    extra = 0.0
-    for pos, idx in enumerate(order):
-        k, o = items[idx]
-        after_disc = first_disc is not None and pos > first_disc
-        rep = obs['replies'].get(idx)
-        kind = o[0]
-        if k == 'N':
-            if rep is not None:
-                bad.append(('c03:notification-answered', f'item {idx} {o}: a notification got {rep}'))
-        elif not after_disc and k != 'B' or (k == 'B' and first_disc is None):
-            if rep is None:
-                key = 'c03:no-reply'
-                if kind in ('u', 'du'):
-                    key = 'c03:unencodable-result-no-reply'
-                bad.append((key, f'item {idx} (outcome {o}) was never answered'))
-            else:
-                c = canon_reply(rep)
-                want = {
-                    'v': lambda: f'R{o[1]}', 'dv': lambda: f'R{o[1]}',
-                    'u': lambda: f'E{cfg["internal"]}:lib', 'du': lambda: f'E{cfg["internal"]}:lib',
-                    'r': lambda: f'E{o[1]}:{o[2]}', 'de': lambda: f'E{o[1]}:{o[2]}',
-                    'p': lambda: f'E{o[1]}:{o[2]}',
-                    'o': lambda: f'E{cfg["internal"]}:lib', 't': lambda: f'E{cfg["busy"]}:lib',
-                    'x': lambda: f'E{cfg["excessive"]}:lib',
-                }[kind]()
-                if c != want:
-                    bad.append(('c03:wrong-reply', f'item {idx} outcome {o}: replied {c}, expected {want}'))
-                if 'jsonrpc' not in rep or ('result' in rep) == ('error' in rep):
-                    bad.append(('c03:ill-formed-reply', f'item {idx}: {rep}'))
-        if not after_disc and kind not in ('v', 'dv') and not (k == 'N' and kind in ('u', 'du')):
-            failed += 1
-            if kind in ('r', 'de'):
-                extra += o[3]
+    for i, (k, o, d) in enumerate(items):
+        rep = obs['replies'].get(i)
+        # not done P seconds after its arrival: it overran, whatever it did afterwards
+        overran = fin[i] is None or fin[i] > case['arr'][i] + P + 1e-6
+        if not live(i):
+            continue
+        if o[0] in OUTSIDE:
+            continue
+        if overran or o[0] not in ('v', 'dv'):
+            if not (k in ('N', 'M') and o[0] in ('u', 'du') and not overran):
+                failed += 1
+        if k in ('N', 'M') or (k == 'B' and not batch_live):
+            continue
+        allowed = text_replies(cfg, o, overran)
+        if rep is None:
+            key = 'c03:no-reply'
+            if o[0] in ('u', 'du') and not overran:
+                key = 'c03:unencodable-result-no-reply'
+            if o[0] == 'xe':
+                key = 'c03:handler-raised-excessive-cost-error'
+            what = 'overran the processing timeout' if overran else f'outcome {o} at t={fin[i]}'
+            bad.append((key, f'item {i} ({what}) was never answered'))
+        else:
+            got = canon_reply(rep)
+            if got not in allowed:
+                key = 'c03:wrong-reply'
+                if o[0] == 'xe':
+                    key = 'c03:handler-raised-excessive-cost-error'
+                what = 'overran the processing timeout' if overran else f'outcome {o}'
+                bad.append((key, f'item {i} {what}: replied {got}, the property allows {sorted(allowed)}'))
+            if not well_formed(proto, rep):
+                bad.append(('c03:ill-formed-reply', f'item {i}: {rep}'))
     if obs['dup']:
         bad.append(('c03:answered-twice', f'ids {obs["dup"]} answered more than once'))
-    if 'malformed' in obs['replies']:
-        bad.append(('c03:ill-formed-reply', str(obs['replies']['malformed'])[:200]))
-    if first_disc is None:
+    if obs['malformed']:
+        bad.append(('c03:ill-formed-reply', str(obs['malformed'])[:200]))
+    # a response that answers no request at all (a notification has no id to answer to)
+    asked = {i for i, it in enumerate(items) if it[0] in ('R', 'B')} | {777777}
+    stray = [r for j, r in obs['replies'].items() if j not in asked]
+    if stray and not (cutter is not None and items[cutter][1][0] in OUTSIDE):
+        bad.append(('c03:notification-answered', f'responses that answer no request: {stray}'[:300]))
+    # ---- survival / disconnection
+    if cutter is None:
         if obs['probe'] is not True:
             key = 'c03:session-dead'
-            if any(items[i][1][0] in ('u',) for i in order):
+            if any(o[0] == 'u' for _k, o, _d in items):
                 key = 'c03:unencodable-result-kills-session'
             bad.append((key, f'after the items the session no longer answers a valid request '
                              f'(closed={obs["closed"]}, message task done={obs["pm_task_done"]}, '
                              f'loop exceptions {obs["loopexc"]})'))
-        if obs['errors'] != failed:
-            bad.append(('c03:error-count', f'{failed} items failed but session.errors rose by {obs["errors"]}'))
-        want_cost = failed * cfg['base'] + extra
-        if abs(obs['cost'] - want_cost) > 1.0:
-            bad.append(('c03:error-cost', f'failed items should have cost {want_cost}, session.cost rose by {obs["cost"]:.3f}'))
-    else:
+    elif items[cutter][1][0] in DISC:
         if not obs['closed']:
-            bad.append(('c03:disconnect-not-closed', 'a disconnecting outcome did not close the connection'))
+            bad.append(('c03:disconnect-not-closed', 'a reply-and-disconnect did not close the connection'))
+    elif items[cutter][1][0] == 'xe' and obs['closed']:
+        bad.append(('c03:handler-raised-excessive-cost-error',
+                    f'item {cutter}: the handler raised ExcessiveSessionCostError (an Exception '
+                    f'like any other); the connection was closed'))
+    # ---- each failed request raises the error count and the cost
+    if cutter is not None:
+        after = [sn for sn in obs['snaps'] if sn[0] >= cut_t and sn[3]]
+        sn = after[0] if after else obs['snaps'][-1]
+    else:
+        sn = obs['snaps'][-1]
+    if cutter is None or items[cutter][1][0] in DISC:
+        if sn[1] < failed:
+            bad.append(('c03:error-count', f'{failed} items failed but session.errors rose by {sn[1]}'))
+        if failed and not sn[2] > 0.5:
+            bad.append(('c03:error-cost', f'{failed} items failed but session.cost (bandwidth '
+                                          f'charges apart) rose by {sn[2]:.3f}'))
     return bad
 
 
+# ---------------------------------------------------------------- case generation
 def concrete(kind, n):
-    return {'v': ('v', n), 'u': ('u', n), 'r': ('r', 5 + n, 1 + n % 3, 10 * (n % 4)),
-            'p': ('p', -32602, 2), 'o': ('o',), 't': ('t',), 'dv': ('dv', n),
-            'de': ('de', 17, 7, 25), 'du': ('du', n), 'x': ('x',)}[kind]
+    if kind == 'vf':
+        return ('v', 900 + n % len(FALSY))
+    return {'v': ('v', n), 'u': ('u', n), 'e': ('e', 40 + n, 1 + n % 3, 5 * (n % 3)),
+            'r': ('r', 5 + n, 1 + n % 3, 10 * (n % 4)),
+            'p': ('p', -32602, 2), 'o': ('o', n), 't': ('t',), 'dv': ('dv', n),
+            'de': ('de', 17, 7, 25), 'du': ('du', n), 'x': ('x',), 'xe': ('xe',),
+            'd0': ('d0',), 'tt': ('tt',), 'b': ('b', n)}[kind]
 
 
-def exhaustive_cases(pairs=True):
+def mk(items, arr=None, **cfg):
+    return {'cfg': norm_cfg(cfg), 'items': items, 'arr': list(arr) if arr else [0] * len(items)}
+
+
+CONFIGS = [dict(), dict(transport='us'), dict(proto='1.0'), dict(proto='loose'),
+           dict(kind='client'), dict(hard0=True), dict(kind='client', proto='1.0', transport='us')]
+
+
+def config_ok(cfg, items):
+    cfg = norm_cfg(cfg)
+    for k, o, d in items:
+        if k in ('B', 'M') and cfg['proto'] == '1.0':
+            return False
+        if o[0] == 'x' and (cfg['kind'] == 'client' or cfg['hard0'] or cfg['throttle'] or k != 'R'
+                            or cfg['conc'] < len(items)):
+            return False
+    return True
+
+
+def single_cases():
     cases = []
-    for kind in ('R', 'N', 'B'):
-        for o in OUTCOMES:
-            if kind == 'B' and o == 'x':
-                continue
-            cases.append(([(kind, concrete(o, 1))], [0]))
-            if o in ('u', 'du'):
-                cases.append(([(kind, concrete(o, 0))], [0]))
-                cases.append(([(kind, concrete(o, 2))], [0]))
-    if pairs:
-        for (k1, o1), (k2, o2) in itertools.product(
-                itertools.product(('R', 'N', 'B'), OUTCOMES), repeat=2):
-            if 'x' in (o1, o2) and 'B' in (k1, k2):
-                continue
-            if 'x' in (o1, o2):
-                continue    # a limiter refusal acts on arrival, not on completion: singles only
-            items = [(k1, concrete(o1, 1)), (k2, concrete(o2, 2))]
-            for order in ([0, 1], [1, 0]):
-                # a disconnecting outcome only as the last to complete
-                if items[order[0]][1][0] in ('dv', 'de', 'du'):
-                    continue
-                # an overrun is by definition the slowest: everything admitted with it and
-                # still running when it times out would have overrun as well
-                if items[order[0]][1][0] == 't' and items[order[1]][1][0] != 't':
-                    continue
-                if 't' in (o1, o2) and items[order[1]][1][0] in ('dv', 'de', 'du'):
-                    continue
-                cases.append((items, order))
+    for cfg in CONFIGS:
+        for kind in ('R', 'N', 'B', 'M'):
+            for o in OUTCOMES:
+                ns = [1]
+                if o in ('u', 'du'):
+                    ns = [0, 1, 2]
+                if o == 'o':
+                    ns = list(range(N_OTHER))
+                if o == 'b':
+                    ns = [0, 1]
+                if o in ('v', 'dv'):
+                    ns = [1] + [900 + j for j in range(len(FALSY))]
+                for n in ns:
+                    items = [(kind, concrete(o, n), 0 if o == 'x' else 1)]
+                    if config_ok(cfg, items):
+                        cases.append(mk(items, **cfg))
     return cases
 
 
+def pair_cases():
+    cases = []
+    kinds = ('R', 'N', 'B')
+    for ci, ((k1, o1), (k2, o2)) in enumerate(itertools.product(itertools.product(kinds, OUTCOMES), repeat=2)):
+        if 'x' in (o1, o2) and (o2 != 'x' or o1 == 'x'):
+            continue        # a limiter refusal acts on arrival: last to arrive, first to complete
+        for d1, d2 in ((1, 2), (2, 1)):
+            if o2 == 'x':
+                d2 = 0
+            items = [(k1, concrete(o1, 1), d1), (k2, concrete(o2, 2), d2)]
+            cfg = dict(transport='rs' if ci % 2 == 0 else 'us')
+            # a slow peer (the reply sits in the send buffer for 5 virtual seconds) when the
+            # last to complete replies and disconnects: the reply must still get through
+            last = items[0] if d1 > d2 else items[1]
+            if last[1][0] in ('dv', 'de') and 't' not in (o1, o2):
+                cfg['drain'] = 5.0
+            if config_ok(cfg, items):
+                cases.append(mk(items, **cfg))
+    return cases
+
+
+QUEUE_OUTS = ['v', 'r', 'o', 't', 'dv', 'u']
+
+
+def queue_cases(full):
+    """fewer slots than requests: the later ones wait for a slot, and what they wait for may
+    never end before their own processing timeout does"""
+    cases = []
+    durs = (7, 13, 22)
+    outs = QUEUE_OUTS if full else ['v', 'r', 't', 'dv']
+    # K = 1, two and three requests
+    for (oa, da), (ob, db) in itertools.product(itertools.product(outs, durs), repeat=2):
+        cases.append(mk([('R', concrete(oa, 1), da), ('R', concrete(ob, 2), db)], conc=1))
+    for oa, ob, oc in itertools.product(outs, repeat=3):
+        for da, db, dc in ((7, 13, 4), (13, 22, 3), (22, 3, 3), (3, 4, 22)) if full else ((7, 13, 4), (22, 3, 3)):
+            cases.append(mk([('R', concrete(oa, 1), da), ('N' if oc == 'r' else 'R', concrete(ob, 2), db),
+                             ('R', concrete(oc, 3), dc)], conc=1))
+    # K = 2, three and four requests, a batch among them
+    for oa, ob, oc in itertools.product(outs, repeat=3):
+        for da, db, dc in ((7, 13, 21), (22, 9, 4), (5, 28, 26)):
+            cases.append(mk([('R', concrete(oa, 1), da), ('R', concrete(ob, 2), db),
+                             ('R', concrete(oc, 3), dc)], conc=2, transport='us'))
+            cases.append(mk([('B', concrete(oa, 1), da), ('B', concrete(ob, 2), db),
+                             ('B', concrete(oc, 3), dc)], conc=2))
+    return [c for c in cases if no_ties(c)]
+
+
+def throttle_cases(full):
+    """the session's cost is in the soft range: every handler starts S seconds late; with
+    S >= P the timeout expires during that sleep"""
+    cases = []
+    outs = ['v', 'r', 'o', 'u', 'dv', 'p'] if full else ['v', 'r', 'o']
+    for S in (9, 26, 40):
+        for k in ('R', 'N', 'B'):
+            for o in outs:
+                for d in (3, 12, 25):
+                    cases.append(mk([(k, concrete(o, 1), d)], throttle=S))
+        for oa, ob in itertools.product(outs, repeat=2):
+            cases.append(mk([('R', concrete(oa, 1), 3), ('R', concrete(ob, 2), 12)], throttle=S))
+            cases.append(mk([('R', concrete(oa, 1), 25), ('B', concrete(ob, 2), 2)], throttle=S, transport='us'))
+    return [c for c in cases if no_ties(c)]
+
+
+def pause_cases(full):
+    """the peer stops reading (pause_writing) before a handler finishes close to the processing
+    deadline and resumes after it: the reply is written late, but it is still the one reply"""
+    cases = []
+    outs = ['v', 'r', 'u', 'o', 'p', 'dv', 'de'] if full else ['v', 'r', 'u', 'dv']
+    for tr in ('rs', 'us'):
+        for o in outs:
+            for d, pause in ((25, [20, 36]), (28, [27, 31]), (12, [5, 20]), (29, [0, 33])):
+                cases.append(mk([('R', concrete(o, 1), d)], pause=pause, transport=tr))
+                cases.append(mk([('B', concrete('v', 1), 3), ('B', concrete(o, 2), d)], pause=pause, transport=tr))
+                cases.append(mk([('R', concrete(o, 1), d), ('R', concrete('v', 2), d - 2), ('N', concrete('r', 3), 4)],
+                                pause=pause, transport=tr))
+    return cases
+
+
+def simulate(case):
+    """the K-slot schedule (the generator's copy, used to avoid ties only): completion instant
+    of every item"""
+    c, items, arr = case['cfg'], case['items'], case['arr']
+    free = [0] * c['conc']
+    out = {}
+    for i in arrival_order(items):
+        k, o, d = items[i]
+        dl = arr[i] + P
+        a = max(free[0], arr[i])
+        if a >= dl:
+            out[i] = dl
+            continue
+        if o[0] == 'x':
+            rel = a
+        else:
+            f = a + c['throttle'] + d
+            rel = dl if (o[0] == 't' or f >= dl) else f
+            if f == dl and o[0] != 't':
+                out['tie'] = True       # the handler would finish at the very instant of its deadline
+        out[i] = rel
+        free = sorted(free[1:] + [rel])
+    return out
+
+
+def no_ties(case):
+    """no two things at one instant, overruns of requests that arrived together apart"""
+    sim = simulate(case)
+    if sim.pop('tie', False):
+        return False
+    arr = case['arr']
+    done = [t for i, t in sim.items() if t < arr[i] + P]
+    over = {t for i, t in sim.items() if t >= arr[i] + P}
+    later = {a for a in arr if a > 0}
+    order = [arr[i] for i in arrival_order(case['items'])]
+    return (len(done) == len(set(done)) and not (set(done) & over) and not (later & (set(done) | over))
+            and order == sorted(order))
+
+
+def stagger_cases(full):
+    """requests that arrive one after the other: each has its own processing deadline"""
+    cases = []
+    outs = ['v', 'r', 'o', 't', 'dv', 'u'] if full else ['v', 'r', 't', 'dv']
+    for oa, ob, oc in itertools.product(outs, repeat=3):
+        for (da, db, dc), arr in (((22, 5, 9), (0, 10, 12)), ((7, 26, 3), (0, 2, 19)), ((28, 27, 4), (0, 1, 6))):
+            for conc in (1, 2, 20):
+                cases.append(mk([('R', concrete(oa, 1), da), ('R', concrete(ob, 2), db),
+                                 ('N' if oc == 'o' else 'R', concrete(oc, 3), dc)], arr=arr, conc=conc,
+                                transport='us' if conc == 2 else 'rs'))
+    return [c for c in cases if no_ties(c)]
+
+
+RANDOM_OUTS = ['v', 'v', 'v', 'u', 'e', 'r', 'r', 'p', 'o', 'o', 't', 'dv', 'de', 'du', 'xe', 'd0', 'tt', 'b']
+
+
 def random_case(r):
-    n = r.randint(2, 6)
-    items = []
-    for i in range(n):
-        k = r.choice(['R', 'R', 'N', 'B'])
-        o = r.choice(['v', 'v', 'u', 'r', 'r', 'p', 'o', 't'])
-        items.append((k, concrete(o, i)))
-    order = list(range(n))
-    r.shuffle(order)
-    # overruns are the slowest items: they complete last
-    order = [i for i in order if items[i][1][0] != 't'] + [i for i in order if items[i][1][0] == 't']
-    if r.random() < 0.25 and not any(o[0] == 't' for _k, o in items):
-        last = order[-1]
-        k = items[last][0]
-        items[last] = (k, concrete(r.choice(['dv', 'de', 'du']), last))
-    return items, order
+    for _ in range(100):
+        n = r.randint(2, 6)
+        cfg = dict(r.choice(CONFIGS))
+        mode = r.random()
+        if mode < 0.25:
+            cfg['conc'] = r.choice([1, 2, 3])
+        elif mode < 0.4 and cfg.get('kind') != 'client' and not cfg.get('hard0'):
+            cfg['throttle'] = r.choice([4, 11, 27, 33])
+        items = []
+        pool = RANDOM_OUTS if r.random() < 0.5 else RANDOM_OUTS[:11]
+        for i in range(n):
+            k = r.choice(['R', 'R', 'R', 'N', 'B', 'B', 'M'])
+            o = r.choice(pool)
+            oc = concrete(o, i)
+            if o == 'v' and r.random() < 0.3:
+                oc = concrete('vf', r.randrange(len(FALSY)))
+            items.append((k, oc, r.randint(1, 29 if 'conc' in cfg or 'throttle' in cfg else 12)))
+        if r.random() < 0.08 and 'conc' not in cfg and 'throttle' not in cfg:
+            items.append(('R', ('x',), 0))
+        arr = None
+        if r.random() < 0.3 and not cfg.get('throttle') and not any(o[0] == 'x' for _k, o, _d in items):
+            # one after the other (the members of the batch together)
+            t, arr, tb = 0, [], None
+            for k, _o, _d in items:
+                if k in ('B', 'M'):
+                    if tb is None:
+                        t += r.randint(0, 7)
+                        tb = t
+                    arr.append(tb)
+                else:
+                    t += r.randint(0, 7)
+                    arr.append(t)
+            if tb is not None:
+                # the batch arrives at the position of its first member: nothing arrives earlier
+                # after it in list order
+                first = next(i for i, it in enumerate(items) if it[0] in ('B', 'M'))
+                arr = [a if (i <= first or items[i][0] in ('B', 'M')) else max(a, tb) for i, a in enumerate(arr)]
+        case = mk(items, arr=arr, **cfg)
+        if r.random() < 0.15 and not cfg.get('throttle') and not any(o[0] in OUTSIDE for _k, o, _d in items):
+            t0 = r.randint(0, 28)
+            case['cfg']['pause'] = [t0, t0 + r.randint(1, 14)]
+        elif r.random() < 0.2:
+            case['cfg']['drain'] = 5.0
+        if config_ok(case['cfg'], items) and no_ties(case):
+            return case
+    return mk([('R', ('v', 1), 1)])
 
 
+# ---------------------------------------------------------------- running and comparing
 def _work(args):
     repo, cases = args
-    out = []
-    for i, (items, order) in enumerate(cases):
-        out.append(run_case(repo, items, order, transport='rs' if i % 2 == 0 else 'us'))
-    return out
+    return [run_case(repo, case) for case in cases]
 
 
 def run_all(ctx, cases):
@@ -371,42 +801,120 @@ def run_all(ctx, cases):
         return [x for part in pool.map(_work, jobs) for x in part]
 
 
+def compare(case, obs, m):
+    """implementation against the model's prediction; returns (impl, model) texts when they
+    differ"""
+    items = case['items']
+    paused = case['cfg']['pause'] is not None
+    got = {j: canon_reply(r) for j, r in obs['replies'].items() if isinstance(j, int) and j < len(items)}
+    want = {j: canon_model_reply(r) for j, r in m['replies'].items()}
+    if m['batch'] is not None:
+        want.update({j: canon_model_reply(r) for j, r in m['batch'].items()})
+    if paused and m['cut'] is not None:
+        # a paused writer delays the close as well: what completes between the cutting item and
+        # the resumption may or may not be written - compare the items before the cut only
+        # (a batch member is written with the batch response, when its last request member completes)
+        tb = max([t for j, t in m['times'].items() if items[j][0] == 'B'], default=0)
+        when = {j: (max(t, tb) if items[j][0] == 'B' else t) for j, t in m['times'].items()}
+        keep = {j for j, t in when.items() if t < m['cut'] and t < case['cfg']['pause'][0]}
+        got = {j: r for j, r in got.items() if j in keep}
+        want = {j: r for j, r in want.items() if j in keep}
+    if got != want:
+        return str(sorted(got.items())), str(sorted(want.items()))
+    nb = len(obs['batches'])
+    if nb != (1 if m['batch'] else 0) and not (paused and m['cut'] is not None):
+        return f'{nb} batch responses', f'batch={m["batch"]}'
+    if m['cut'] is not None and m['alive'] and not paused:
+        after = [sn for sn in obs['snaps'] if sn[0] >= m['cut']]
+        sn = after[0] if after else obs['snaps'][-1]
+    else:
+        sn = obs['snaps'][-1]
+    if not (paused and m['cut'] is not None):
+        if sn[1] != m['errors'] or abs(sn[2] - m['cost']) > 0.5:
+            return f'errors={sn[1]} cost={sn[2]:.2f} at t={sn[0]}', f'errors={m["errors"]} cost={m["cost"]}'
+    if m['alive'] and obs['closed'] != m['close']:
+        return f'closed={obs["closed"]}', f'close={m["close"]}'
+    if (obs['probe'] is True) != (m['alive'] and not m['close']):
+        return f'probe={obs["probe"]}', f'alive={m["alive"]} close={m["close"]}'
+    if sn[4] != m['hook'] and not (paused and m['cut'] is not None):
+        return f'hook={sn[4]}', f'hook={m["hook"]}'
+    # the schedule: the instants at which the handlers reached their outcomes
+    for j, t in m['times'].items():
+        rec = obs['hlog'].get(j)
+        ft = rec[1] if rec else None
+        if j in m['lost'] or items[j][1][0] == 'x':
+            continue
+        if (t < case['arr'][j] + P) != (ft is not None) or (ft is not None and abs(ft - t) > 1e-6):
+            return f'handler {j} reached its outcome at {ft}', f'completion time {t}'
+    return None
+
+
 def evaluate(ctx, cases, res):
     cfg = ctx.facts.get('cfg') or {'internal': -32603, 'busy': -102, 'excessive': -101, 'base': 100}
     allobs = run_all(ctx, cases)
-    model = ctx.model([model_line(cfg, items, order) for items, order in cases])
-    for i, ((items, order), obs) in enumerate(zip(cases, allobs)):
-        case = {'items': [[k, list(o)] for k, o in items], 'order': order}
-        for key, why in oracle(cfg, items, order, obs):
-            res.violation(key, case, why)
-        disc = any(items[j][1][0] in ('dv', 'de', 'du', 'x') for j in order)
+    model = ctx.model([model_line(cfg, case) for case in cases])
+    for i, (case, obs) in enumerate(zip(cases, allobs)):
+        cj = case_json(case)
+        for key, why in oracle(cfg, case, obs):
+            res.violation(key, cj, why)
         if model is not None:
-            m = parse_model(model[i])
-            got = {j: canon_reply(r) for j, r in obs['replies'].items() if isinstance(j, int)}
-            want = {j: canon_model_reply(r) for j, r in m['replies'].items()}
-            # a batch that contains a disconnecting member may be cut short by the close
-            if got != want and not (disc and any(k == 'B' for k, _ in items)):
-                res.disagreement(case, str(sorted(got.items())), str(sorted(want.items())))
-            elif not disc and (obs['errors'] != m['errors'] or abs(obs['cost'] - m['cost']) > 1.0
-                               or (obs['probe'] is True) != m['alive']):
-                res.disagreement(case, f'errors={obs["errors"]} cost={obs["cost"]:.2f} probe={obs["probe"]}',
-                                 f'errors={m["errors"]} cost={m["cost"]} alive={m["alive"]}')
-            elif disc and obs['closed'] != m['close']:
-                res.disagreement(case, f'closed={obs["closed"]}', f'close={m["close"]}')
-        for k, o in items:
+            if model[i] == 'bad-op':
+                res.disagreement(cj, 'ran', 'the model driver rejected the case')
+            else:
+                diff = compare(case, obs, parse_model(model[i]))
+                if diff:
+                    res.disagreement(cj, diff[0], diff[1])
+        items = case['items']
+        for k, o, d in items:
             res.count('outcome_' + o[0])
             res.count('kind_' + k)
-        if len(items) >= 2 and any(o[0] not in ('v', 'dv') for _k, o in items):
-            res.nontrivial(json.dumps(case))
+        for key in ('proto', 'kind'):
+            res.count(f'{key}_{case["cfg"][key]}')
+        for i2, (k, o, d) in enumerate(items):
+            # measured: requests answered 'server busy', by where their time went
+            rep = obs['replies'].get(i2)
+            if rep is not None and canon_reply(rep).startswith(f'E{cfg["busy"]}:') and o[0] != 'tt':
+                rec = obs['hlog'].get(i2)
+                res.count('busy_reply_handler_never_started' if rec is None else 'busy_reply_in_handler')
+        if case['cfg']['pause']:
+            res.count('paused_writer_cases')
+        if len(items) >= 2 and any(o[0] not in ('v', 'dv') for _k, o, _d in items):
+            res.nontrivial(json.dumps(cj, sort_keys=True))
         if i < 3:
-            res.sample({'case': case, 'replies': {str(k): v for k, v in obs['replies'].items()},
-                        'errors': obs['errors'], 'probe': obs['probe']})
+            res.sample({'case': cj, 'replies': {str(k): v for k, v in obs['replies'].items()},
+                        'errors': obs['snaps'][-1][1], 'probe': obs['probe']})
     res['evaluations'] += len(cases)
 
 
 def parse_corpus(ln):
-    d = json.loads(ln)
-    return [(k, tuple(o)) for k, o in d['items']], d['order']
+    return norm_case(json.loads(ln))
+
+
+def unexpected(ctx, res):
+    """something failed that is not a listed known finding: stop enlarging the scopes"""
+    try:
+        with open(os.path.join(ctx.verif, 'known_findings.json')) as f:
+            known = {k['key'] for k in json.load(f).get('known', []) if k['property'] == 'C03'}
+    except (OSError, ValueError):
+        known = set()
+    return bool(res.n_disagreements) or any(v['key'] not in known for v in res['violations'])
+
+
+def explore(ctx, res, deep):
+    fams = [('singles', single_cases()), ('pairs', pair_cases()),
+            ('queueing', queue_cases(deep)), ('throttle', throttle_cases(deep)),
+            ('paused_writer', pause_cases(deep)), ('staggered', stagger_cases(deep))]
+    for name, cases in fams:
+        if unexpected(ctx, res) and name != 'singles':
+            return
+        if res['scopes'].get(name) == len(cases):
+            continue            # the deep family is the quick one: already done
+        evaluate(ctx, cases, res)
+        res['scopes'][name] = len(cases)
+    if not unexpected(ctx, res):
+        n = (200000 if ctx.tier == 'thorough' else 8000) if deep else 4000
+        evaluate(ctx, [random_case(ctx.rng) for _ in range(n)], res)
+        res['scopes']['generated'] = res['scopes'].get('generated', 0) + n
 
 
 def run(ctx):
@@ -415,22 +923,25 @@ def run(ctx):
     if corp:
         evaluate(ctx, corp, res)
     res['scopes']['corpus'] = len(corp)
-    ex = exhaustive_cases(pairs=True)
-    if not ctx.deep:
-        singles = [c for c in ex if len(c[0]) == 1]
-        pairs = [c for c in ex if len(c[0]) == 2]
-        ex = singles + pairs
-    evaluate(ctx, ex, res)
-    res['scopes']['exhaustive_singles_and_pairs'] = len(ex)
-    n = (60000 if ctx.tier == 'thorough' else 8000) if ctx.deep else 1500
-    evaluate(ctx, [random_case(ctx.rng) for _ in range(n)], res)
-    res['scopes']['generated'] = n
+    explore(ctx, res, ctx.deep)
+    # A source drift / broken obligation on the quick tier: lib/vcheck.py looks at quick depth
+    # first and repeats at thorough depth only when that pass recorded no violation at all -
+    # a listed known finding counts there, and C03 has one on every run.  So go deep here.
+    if not ctx.deep and ctx.deep_reasons and ctx.tier != 'thorough' and res['violations'] \
+            and not unexpected(ctx, res):
+        explore(ctx, res, True)
+        return res.finish(RULE, exhaustive=True)
     return res.finish(RULE, exhaustive=ctx.deep)
 
 
 def replay(ctx, case):
-    if isinstance(case.get('case'), dict):
-        case = case['case']
     res = Results()
-    evaluate(ctx, [([(k, tuple(o)) for k, o in case['items']], case['order'])], res)
+    if 'items' not in case and not isinstance(case.get('case'), dict):
+        # a replay file written for a model / implementation disagreement only
+        recs = (case.get('violations') or []) + (case.get('disagreements') or [])
+        recs = [r for r in recs if isinstance(r.get('case'), dict)]
+        if not recs:
+            return res.finish('nothing to replay: the file names no case')
+        case = recs[0]['case']
+    evaluate(ctx, [norm_case(case)], res)
     return res.finish('replay of one recorded case')
